@@ -3,6 +3,7 @@
 //!   vh replay <prop> <cases.ndjson> <report.json>      direction R (spec -> implementation)
 //!   vh record <prop> <seed> <n> <trace.ndjson>         direction V (implementation -> spec)
 mod c01;
+mod c02;
 mod c04;
 mod c06;
 mod c08;
@@ -36,6 +37,7 @@ fn main() {
       note_case(&serde_json::json!("start"));
       match args[2].as_str() {
         "C01" => c01::replay(&cases, &mut rep),
+        "C02" => c02::replay(&cases, &mut rep),
         "C04" => c04::replay(&cases, &mut rep),
         "C06" => c06::replay(&cases, &mut rep),
         "C08" => c08::replay(&cases, &mut rep),
